@@ -6,6 +6,12 @@ import rejmodels
 from c01 import cdisc
 
 
+def cqf(x):
+    """a finite binary64 as the exact rational Smc.qf m e = m * 2^e"""
+    n, d = float(x).as_integer_ratio()
+    return '(qf (%d) (%d))' % (n, -(d.bit_length() - 1))
+
+
 def cpop(rows, thr, n_sim, n_batches):
     return ('{| p_rows := %s; p_threshold := %s; p_n_sim := %s; p_n_batches := %s |}'
             % (clist(['None' if c is None else '(Some {| d_disc := %s; d_code := %s |})' % (cdisc(d), cn(c)) for d, c in rows]),
@@ -31,31 +37,117 @@ def wquantile(x, alpha, w, eps):
     return out
 
 
+# ---- independent prior (log domain: a density that underflows in binary64 is still positive) ----
+def _lu(x, a, w):
+    """log U(x; [a, a + w]); -inf outside the support and for an undefined distribution (w <= 0)"""
+    good = (w > 0) & (x >= a) & (x <= a + w)
+    return np.where(good, -np.log(np.where(w > 0, w, 1.0)), -np.inf)
+
+
+def _ln(x, m, sd):
+    good = sd > 0
+    sdd = np.where(good, sd, 1.0)
+    return np.where(good, -0.5 * ((x - m) / sdd) ** 2 - np.log(sdd) - 0.5 * np.log(2 * np.pi), -np.inf)
+
+
+def _le(x, s):
+    return np.where(x >= 0, -x / s - np.log(s), -np.inf)
+
+
+def log_prior(cfg, cols):
+    """log of the joint prior density = sum of the conditional log densities, -inf as soon as one factor is zero
+    or undefined (a child whose parent lies outside the parent's support has no density: the joint density is 0)"""
+    if 'kind' not in cfg:                          # the unit-scale model of rejmodels.build
+        lp = _lu(cols['t1'], -1.0, 2.0)
+        if cfg['two_params']:
+            lp = lp + _ln(cols['t2'], cols['t1'], 0.5)
+        return lp
+    s1, s2, kind = float(cfg['s1']), float(cfg.get('s2', 1.0)), cfg['kind']
+    with np.errstate(all='ignore'):
+        if kind == 'flat':
+            lp = _lu(cols['t1'], -s1, 2 * s1)
+            if cfg.get('two_params'):
+                lp = lp + _ln(cols['t2'], cols['t1'], 0.5 * s1)
+        elif kind == 'hier_uniform':
+            par = _lu(cols['sc'], 0.0, 2 * s1)
+            lp = np.where(np.isfinite(par), par + _lu(cols['lo'], 0.0, cols['sc']), -np.inf)
+        elif kind == 'hier_normal':
+            par = _lu(cols['sd'], 0.0, 2 * s1)
+            lp = np.where(np.isfinite(par), par + _ln(cols['mu'], 0.0, cols['sd']), -np.inf)
+        elif kind == 'hier_expon':
+            par = _le(cols['sc'], s1)
+            lp = np.where(np.isfinite(par), par + _lu(cols['lo'], 0.0, cols['sc']), -np.inf)
+        else:
+            raise ValueError(kind)
+        if cfg.get('extra') == 'norm':
+            lp = lp + _ln(cols['t3'], 0.0, s2)
+        elif cfg.get('extra') == 'unif':
+            lp = lp + _lu(cols['t3'], 0.0, s2)
+    return lp
+
+
+def log_components(X, M, cov):
+    """log N(X_i; M_j, cov) for all i, j, evaluated in standardised coordinates (no absolute scale enters)"""
+    sd = np.sqrt(np.diag(cov))
+    R = cov / np.outer(sd, sd)
+    Z = (X[:, None, :] - M[None, :, :]) / sd
+    quad = np.einsum('ijk,kl,ijl->ij', Z, np.linalg.inv(R), Z)
+    return -0.5 * quad - np.sum(np.log(sd)) - 0.5 * np.linalg.slogdet(R)[1] - 0.5 * X.shape[1] * np.log(2 * np.pi)
+
+
 class C07(PropCheck):
     pid = 'C07'
-    header = ('From Coq Require Import List ZArith NArith Bool PrimFloat.\n'
+    header = ('From Coq Require Import List ZArith NArith QArith Bool PrimFloat.\n'
               'From Elfi Require Import Base.Harness Sched.Sched Sched.Reject Sched.Smc.\nImport ListNotations.\n')
     case_type = 'Smc.case'
     preds = (('Smc.agree', 'agree'), ('Smc.ok', 'ok'))
-    chunk = 80
+    chunk = 10
     case_timeout = 90
     build_targets = ('Sched/Smc.vo',)
-    rule = ('real SMC.sample on small models (bounded uniform prior, optionally a hierarchical normal second parameter), 2-4 '
-            'rounds with threshold lists or quantile lists, batch sizes 1-5, population sizes 2-8, max_parallel 1-3, continued '
-            'sampling on an existing sampler; an OutputPool records every consumed batch; per population: rows, threshold, n_sim, '
-            'n_batches vs the Coq round model; weights, covariance, selected quantile thresholds and prior positivity recomputed '
-            'independently with scipy; non-trivial = at least two populations whose later weights are not all equal; distinct by '
+    rule = ('real SMC.sample on small models: the unit-scale model (bounded uniform prior, optionally a normal child) and models with a '
+            'hierarchical prior whose child is undefined once the parent leaves its support (U(0,2s)->U(0,parent), U(0,2s)->N(0,parent), '
+            'Expon(s)->U(0,parent)) or the flat prior in units of s, s = 1e-6..1e6, optionally a third independent parameter on another '
+            'scale (ratio up to 1e3, rarely more); 2-4 rounds with threshold lists or quantile lists, batch sizes 1-5, population sizes '
+            '2-8, max_parallel 1-3, continued sampling on an existing sampler; an OutputPool records every consumed batch; per '
+            'population: rows, threshold, n_sim, n_batches vs the Coq round model; in Coq (num_agree / num_ok) and independently in '
+            'python: positive prior density of every particle (log domain), finite non-negative weights, first weights 1, later weights '
+            '= prior / mixture of the previous population with its weights and stored covariance, covariance = diag(2 x weighted sample '
+            'variance), all purely relative; every simulated draw of every round has positive prior density; selected quantile '
+            'thresholds recomputed; non-trivial = at least two populations whose later weights are not all equal; distinct by '
             'configuration')
-    trusted = ('scipy densities (uniform, norm, multivariate_normal) as oracles for the weight comparison (relative tolerance 1e-9)',)
+    trusted = ('oracle tables for the Coq weight statement computed by the harness from its own formulas: log prior density (uniform, '
+               'normal, exponential conditionals; zero as soon as a parent lies outside its support) and normal component densities in '
+               'standardised coordinates (relative tolerance 1e-8)',)
 
     def generate(self):
-        n = 60 if self.tier == 'quick' else 900
+        n = 120 if self.tier == 'quick' else 900
         r = self.rng
         for i in range(n):
             rounds = r.choice([2, 3, 3, 4])
             form = r.choice(['thresholds', 'quantiles'])
-            case = dict(cfg=dict(two_params=r.random() < 0.5, width=r.choice([1, 2]), levels=r.choice([4, 6, 8]), inf_above=None),
-                        b=r.choice([1, 2, 3, 5]), n=r.choice([2, 3, 5, 8]), seed=r.randrange(2 ** 31), maxp=r.choice([1, 2, 3]),
+            u = r.random()
+            if u < 0.25:
+                # the unit-scale model with independent / normal-child priors
+                cfg = dict(two_params=r.random() < 0.5, width=r.choice([1, 2]), levels=r.choice([4, 6, 8]), inf_above=None)
+                self.bump('prior=unit')
+            else:
+                # hierarchical priors whose child is undefined outside the parent's support; every parameter on its own scale
+                kind = r.choice(['flat', 'hier_uniform', 'hier_uniform', 'hier_normal', 'hier_normal', 'hier_expon'])
+                e1 = r.choice([-6, -5, -4, -3, -2, -1, 0, 0, 1, 2, 3, 4, 5, 6])
+                extra = r.choice([None, None, 'norm', 'unif'])
+                gap = 0
+                if extra is not None:
+                    # scipy refuses a covariance whose eigenvalue ratio is below ~2e-10 (LinAlgError, the run does not
+                    # finish): scale ratios up to 1e3 are the regular mixed case, larger ones are sampled rarely
+                    gap = r.choice([0, 1, -1, 2, -2, 3, -3]) if r.random() < 0.93 else r.choice([5, -5, 7, -7])
+                e2 = max(-8, min(8, e1 + gap))
+                cfg = dict(kind=kind, two_params=r.random() < 0.5, s1=float('1e%d' % e1), extra=extra, s2=float('1e%d' % e2),
+                           width=r.choice([1, 2]), levels=r.choice([4, 6, 8]))
+                self.bump('prior=%s%s' % (kind, '+' + extra if extra else ''))
+                self.bump('scale=1e%d' % e1)
+                if extra is not None:
+                    self.bump('scale_ratio=1e%d' % (e2 - e1))
+            case = dict(cfg=cfg, b=r.choice([1, 2, 3, 5]), n=r.choice([2, 3, 5, 8]), seed=r.randrange(2 ** 31), maxp=r.choice([1, 2, 3]),
                         rounds=rounds, form=form, continued=(r.random() < 0.25))
             start = r.choice([8, 6, 5])
             case['thresholds'] = [max(1, start - k - r.choice([0, 1])) for k in range(rounds)]
@@ -82,7 +174,8 @@ class C07(PropCheck):
         import elfi.clients.native as native
         from elfi.store import OutputPool
         elfi.set_client(native.Client())
-        m = rejmodels.build(case['cfg'])
+        cfg = case['cfg']
+        m = rejmodels.build_smc(cfg) if 'kind' in cfg else rejmodels.build(cfg)
         pnames = m.parameter_names
         names = ['d'] + pnames + ['sim', 's1']
         pool = OutputPool(names)
@@ -127,65 +220,94 @@ class C07(PropCheck):
                              weights=[float(w) for w in np.asarray(p.weights)]))
             if any(c is None for _, c in rows):
                 problems.append('population %d holds a row that is no consumed draw' % r_i)
-        # ---- numeric clauses, recomputed independently ----
-        def prior_pdf(P):
-            t1 = P[:, 0]
-            d = ss.uniform.pdf(t1, -1, 2)
-            if case['cfg']['two_params']:
-                d = d * ss.norm.pdf(P[:, 1], t1, 0.5)
-            return d
+        # ---- numeric clauses, recomputed independently (nothing below knows the units of a parameter) ----
+        def cols_of(outputs):
+            return {k: np.asarray(outputs[k], dtype=float).reshape(-1) for k in pnames}
+        # every simulated draw (first round: from the prior; later: proposals conditioned on the prior) lies in the support
+        for bi in range(len(pool)):
+            lp = np.asarray(log_prior(cfg, cols_of(pool.get_batch(bi))))
+            if not np.all(lp > -np.inf):
+                problems.append('batch %d was simulated at a point without positive prior density: %r'
+                                % (bi, {k: v.tolist() for k, v in cols_of(pool.get_batch(bi)).items()}))
+                break
+        from fractions import Fraction as _F
+        qopt = lambda x: copt(float(x) if np.isfinite(x) else None, cqf)
+        npops = []
         prev = None
         for r_i, p in enumerate(res.populations):
-            P = np.column_stack([p.outputs[k] for k in pnames])
-            w = np.asarray(p.weights, dtype=float)
-            pp = prior_pdf(P)
-            if not np.all(pp > 0):
-                problems.append('population %d has a particle with prior density 0' % r_i)
+            P = np.column_stack([p.outputs[k] for k in pnames]).astype(float)
+            w = np.asarray(p.weights, dtype=float).reshape(-1)
+            cov = np.atleast_2d(np.asarray(p.cov, dtype=float))
+            lp = np.asarray(log_prior(cfg, cols_of(p.outputs)), dtype=float)
+            support = lp > -np.inf
+            if not np.all(support):
+                problems.append('population %d has a particle without positive prior density: %r' % (r_i, P[~support][:2].tolist()))
+            w_good = bool(np.all(np.isfinite(w)) and np.all(w >= 0))
+            if not w_good:
+                problems.append('population %d has weights that are not finite and non-negative: %r' % (r_i, w[:6].tolist()))
+            dens = []
+            prior_f = np.exp(lp)
+            # a density that underflows in binary64 is no usable oracle for the quotient in Q
+            prior_q = [(0.0 if not s_ else float(x) if x > 1e-290 else None) for x, s_ in zip(prior_f, support)]
             if prev is None:
                 if not np.all(w == 1):
                     problems.append('first population weights are not all 1: %r' % w[:4].tolist())
             else:
-                Pm, wm, covm = prev
-                wn = wm / np.sum(wm)
-                q = np.zeros(len(P))
-                for j in range(len(Pm)):
-                    q += wn[j] * ss.multivariate_normal.pdf(P, mean=Pm[j], cov=covm, allow_singular=True).reshape(-1)
-                expect = pp / q
-                if not np.allclose(w, expect, rtol=1e-8, atol=0):
-                    problems.append('population %d weights %r differ from prior/mixture density %r' % (r_i, w[:4].tolist(), expect[:4].tolist()))
+                Pm, wm, covm, prev_good = prev
+                if prev_good:
+                    with np.errstate(all='ignore'):
+                        L = log_components(P, Pm, covm)
+                        A = L + np.log(wm / np.sum(wm))[None, :]
+                        mx = np.max(A, axis=1)
+                        logq = mx + np.log(np.sum(np.exp(A - mx[:, None]), axis=1))
+                        expect = np.exp(lp - logq)
+                    if not np.allclose(w, expect, rtol=1e-8, atol=0):
+                        problems.append('population %d weights %r differ from prior/mixture density %r' % (r_i, w[:4].tolist(), expect[:4].tolist()))
+                    dens = np.exp(L).tolist()
+                    if not np.all(np.sum(np.exp(L), axis=1) > 1e-290):
+                        prior_q = [None] * len(prior_q)
+                else:
+                    prior_q = [None] * len(prior_q)
+                    dens = [[] for _ in w]
                 if case['form'] == 'quantiles':
                     adm = wquantile(prev_discs, alphas[r_i], wm, 1e-9)
                     if float(used[r_i]) not in adm:
                         problems.append('round %d threshold %r is not the weighted %.3g-quantile %r of the previous discrepancies'
                                         % (r_i, float(used[r_i]), alphas[r_i], sorted(adm)))
+            if any(x is None for x in prior_q):
+                self.bump('weight_oracle_underflow')
             # exact rational value of the reliability-weights formula on the stored floats; the binary64
             # evaluation is entitled to a relative error of a few ulp times the conditioning V1 / (V1 - V2/V1)
             # of the denominator (two particles with weights (1-e, e) lose log10(1/e) digits whatever the
             # order of the floating-point operations)
-            from fractions import Fraction as _F
-            wq = [_F(float(x)) for x in w]
-            V1q, V2q = sum(wq), sum(x * x for x in wq)
-            denq = V1q - V2q / V1q if V1q != 0 else _F(0)
-            if denq != 0:
-                Pq = [[_F(float(x)) for x in row] for row in np.asarray(P, dtype=float).reshape(len(w), -1)]
-                dimq = len(Pq[0])
-                xbarq = [sum(wq[i] * Pq[i][k] for i in range(len(wq))) / V1q for k in range(dimq)]
-                s2 = np.array([float(sum(wq[i] * (Pq[i][k] - xbarq[k]) ** 2 for i in range(len(wq))) / denq) for k in range(dimq)])
-                condq = float(V1q / denq)
-            else:
-                s2 = np.full(np.asarray(P).reshape(len(w), -1).shape[1], np.nan)
-                condq = 1.0
-            cov_expect = 2 * np.diag(s2)
-            cov = np.asarray(p.cov, dtype=float)
-            if np.all(np.isfinite(cov_expect)):
-                if not np.allclose(cov, cov_expect, rtol=1e-9 + 64 * 2.3e-16 * condq, atol=1e-300):
-                    problems.append('population %d cov %r is not twice the weighted sample variance %r' % (r_i, cov.tolist(), cov_expect.tolist()))
-            prev = (P, w, cov)
+            if w_good:
+                wq = [_F(float(x)) for x in w]
+                V1q, V2q = sum(wq), sum(x * x for x in wq)
+                denq = V1q - V2q / V1q if V1q != 0 else _F(0)
+                if denq != 0:
+                    Pq = [[_F(float(x)) for x in row] for row in P]
+                    dimq = len(Pq[0])
+                    xbarq = [sum(wq[i] * Pq[i][k] for i in range(len(wq))) / V1q for k in range(dimq)]
+                    s2 = np.array([float(sum(wq[i] * (Pq[i][k] - xbarq[k]) ** 2 for i in range(len(wq))) / denq) for k in range(dimq)])
+                    condq = float(V1q / denq)
+                    cov_expect = 2 * np.diag(s2)
+                    if not (cov.shape == cov_expect.shape and np.allclose(cov, cov_expect, rtol=1e-9 + 64 * 2.3e-16 * condq, atol=1e-300)):
+                        problems.append('population %d cov %r is not twice the weighted sample variance %r' % (r_i, cov.tolist(), cov_expect.tolist()))
+            cov_good = bool(cov.shape == (P.shape[1], P.shape[1]) and np.all(np.isfinite(cov)) and np.all(np.diag(cov) > 0))
+            if cov_good:
+                sdv = np.sqrt(np.diag(cov))
+                cov_good = bool(np.all(np.isfinite(np.linalg.inv(cov / np.outer(sdv, sdv)))))
+            prev = (P, w, cov, w_good and cov_good and float(np.sum(w)) > 0)
             prev_discs = np.asarray(p.outputs['d'], dtype=float)
-        coq = ('{| v_n := %s; v_b := %s; v_maxp := %s; v_rounds := %s; v_table := %s; v_pops := %s; v_n_sim := %s |}'
+            npops.append('{| q_support := %s; q_prior := %s; q_cols := %s; q_weights := %s; q_cov := %s; q_dens := %s |}'
+                         % (clist([cbool(bool(x)) for x in support]), clist([copt(x, cqf) for x in prior_q]),
+                            clist([clist([cqf(x) for x in P[:, k]]) for k in range(P.shape[1])]),
+                            clist([qopt(x) for x in w]), clist([clist([qopt(x) for x in row]) for row in cov]),
+                            clist([clist([cqf(x) for x in row]) for row in dens])))
+        coq = ('{| v_n := %s; v_b := %s; v_maxp := %s; v_rounds := %s; v_table := %s; v_pops := %s; v_n_sim := %s;\n   v_num := %s |}'
                % (cnat(case['n']), cnat(case['b']), cnat(case['maxp']), clist(rounds_coq),
                   clist([clist(['{| d_disc := %s; d_code := %s |}' % (cdisc(d), cn(c)) for d, c in rows]) for rows in table]),
-                  clist(coq_pops, sep=';\n   '), cnat(int(res.n_sim))))
+                  clist(coq_pops, sep=';\n   '), cnat(int(res.n_sim)), clist(npops, sep=';\n   ')))
         return dict(populations=pops, n_sim=int(res.n_sim), n_batches_total=len(table), problems=problems, coq=coq,
                     weights_vary=any(len(set(p['weights'])) > 1 for p in pops[1:]))
 
